@@ -1,3 +1,256 @@
+// C08: the prefix trees (arity 0..9) against BTreeSet<Vec<u32>> on families of clones.
 use crate::common::*;
-pub fn replay(_seq: &str) -> Result<(), (usize, String)> { Err((0, "pt: not built".into())) }
-pub fn sweep(_thorough: bool, _seed: u64) -> Report { Report::new() }
+use crate::*;
+use std::collections::BTreeSet;
+
+pub trait PT: Clone {
+    const N: usize;
+    type Child: PT;
+    fn new_() -> Self;
+    fn insert_(&mut self, t: &[u32]) -> bool;
+    fn remove_(&mut self, t: &[u32]) -> bool;
+    fn contains_(&self, t: &[u32]) -> bool;
+    fn is_empty_(&self) -> bool;
+    fn clear_(&mut self);
+    fn iter_(&self) -> Vec<Vec<u32>>;
+    fn union_(&self, o: &Self) -> Self;
+    fn difference_(&self, o: &Self) -> Self;
+    fn get_(&self, k: u32) -> Option<Vec<Vec<u32>>>;
+    fn ins_restr(&mut self, k: u32, c: &Self::Child);
+    fn rem_restr(&mut self, k: u32, c: &Self::Child);
+    fn restrictions(&self) -> Vec<(u32, Vec<Vec<u32>>)>;
+    fn mapped_(&self, ms: &[Option<PrefixTree2>]) -> Self;
+}
+
+impl PT for PrefixTree0 {
+    const N: usize = 0;
+    type Child = PrefixTree0;
+    fn new_() -> Self { PrefixTree0::new() }
+    fn insert_(&mut self, _t: &[u32]) -> bool { self.insert([]) }
+    fn remove_(&mut self, _t: &[u32]) -> bool { self.remove([]) }
+    fn contains_(&self, _t: &[u32]) -> bool { self.contains([]) }
+    fn is_empty_(&self) -> bool { self.is_empty() }
+    fn clear_(&mut self) { self.clear() }
+    fn iter_(&self) -> Vec<Vec<u32>> { self.iter().map(|a| a.to_vec()).collect() }
+    fn union_(&self, o: &Self) -> Self { self.union(o) }
+    fn difference_(&self, o: &Self) -> Self { self.difference(o) }
+    fn get_(&self, _k: u32) -> Option<Vec<Vec<u32>>> { None }
+    fn ins_restr(&mut self, _k: u32, _c: &Self::Child) {}
+    fn rem_restr(&mut self, _k: u32, _c: &Self::Child) {}
+    fn restrictions(&self) -> Vec<(u32, Vec<Vec<u32>>)> { vec![] }
+    fn mapped_(&self, _ms: &[Option<PrefixTree2>]) -> Self { self.mapped() }
+}
+
+impl PT for PrefixTree1 {
+    const N: usize = 1;
+    type Child = PrefixTree0;
+    fn new_() -> Self { PrefixTree1::new() }
+    fn insert_(&mut self, t: &[u32]) -> bool { self.insert([t[0]]) }
+    fn remove_(&mut self, t: &[u32]) -> bool { self.remove([t[0]]) }
+    fn contains_(&self, t: &[u32]) -> bool { self.contains([t[0]]) }
+    fn is_empty_(&self) -> bool { self.is_empty() }
+    fn clear_(&mut self) { self.clear() }
+    fn iter_(&self) -> Vec<Vec<u32>> { self.iter().map(|a| a.to_vec()).collect() }
+    fn union_(&self, o: &Self) -> Self { self.union(o) }
+    fn difference_(&self, o: &Self) -> Self { self.difference(o) }
+    fn get_(&self, k: u32) -> Option<Vec<Vec<u32>>> { self.get(k).map(|c| c.iter_()) }
+    fn ins_restr(&mut self, k: u32, c: &Self::Child) { self.insert_restriction(k, c.clone()) }
+    fn rem_restr(&mut self, k: u32, c: &Self::Child) { self.remove_restriction(k, c) }
+    fn restrictions(&self) -> Vec<(u32, Vec<Vec<u32>>)> { self.iter_restrictions().map(|(k, c)| (k, c.iter_())).collect() }
+    fn mapped_(&self, ms: &[Option<PrefixTree2>]) -> Self { self.mapped(ms[0].clone()) }
+}
+
+macro_rules! impl_pt {
+    ($T:ident, $C:ident, $n:expr, [$($i:expr),*]) => {
+        impl PT for $T {
+            const N: usize = $n;
+            type Child = $C;
+            fn new_() -> Self { $T::new() }
+            fn insert_(&mut self, t: &[u32]) -> bool { self.insert([$(t[$i]),*]) }
+            fn remove_(&mut self, t: &[u32]) -> bool { self.remove([$(t[$i]),*]) }
+            fn contains_(&self, t: &[u32]) -> bool { self.contains([$(t[$i]),*]) }
+            fn is_empty_(&self) -> bool { self.is_empty() }
+            fn clear_(&mut self) { self.clear() }
+            fn iter_(&self) -> Vec<Vec<u32>> { self.iter().map(|a| a.to_vec()).collect() }
+            fn union_(&self, o: &Self) -> Self { self.union(o) }
+            fn difference_(&self, o: &Self) -> Self { self.difference(o) }
+            fn get_(&self, k: u32) -> Option<Vec<Vec<u32>>> { self.get(k).map(|c| c.iter_()) }
+            fn ins_restr(&mut self, k: u32, c: &Self::Child) { self.insert_restriction(k, c.clone()) }
+            fn rem_restr(&mut self, k: u32, c: &Self::Child) { self.remove_restriction(k, c) }
+            fn restrictions(&self) -> Vec<(u32, Vec<Vec<u32>>)> { self.iter_restrictions().map(|(k, c)| (k, c.iter_())).collect() }
+            fn mapped_(&self, ms: &[Option<PrefixTree2>]) -> Self { self.mapped($(ms[$i].clone()),*) }
+        }
+    };
+}
+impl_pt!(PrefixTree2, PrefixTree1, 2, [0, 1]);
+impl_pt!(PrefixTree3, PrefixTree2, 3, [0, 1, 2]);
+impl_pt!(PrefixTree4, PrefixTree3, 4, [0, 1, 2, 3]);
+impl_pt!(PrefixTree5, PrefixTree4, 5, [0, 1, 2, 3, 4]);
+impl_pt!(PrefixTree6, PrefixTree5, 6, [0, 1, 2, 3, 4, 5]);
+impl_pt!(PrefixTree7, PrefixTree6, 7, [0, 1, 2, 3, 4, 5, 6]);
+impl_pt!(PrefixTree8, PrefixTree7, 8, [0, 1, 2, 3, 4, 5, 6, 7]);
+impl_pt!(PrefixTree9, PrefixTree8, 9, [0, 1, 2, 3, 4, 5, 6, 7, 8]);
+
+#[derive(Clone, Debug, PartialEq)]
+pub enum Op {
+    Ins(usize, Vec<u32>), Rem(usize, Vec<u32>), Clear(usize), Clone(usize, usize), Union(usize, usize, usize), Diff(usize, usize, usize),
+    CIns(usize, Vec<u32>), CClear(usize), InsR(usize, u32, usize), RemR(usize, u32, usize), Mapped(usize, u32, usize),
+}
+fn tv(t: &[u32]) -> String { if t.is_empty() { "-".into() } else { t.iter().map(|x| x.to_string()).collect::<Vec<_>>().join(".") } }
+fn pv(s: &str) -> Vec<u32> { if s == "-" { vec![] } else { s.split('.').map(|x| x.parse().unwrap()).collect() } }
+pub fn fmt_op(o: &Op) -> String {
+    match o {
+        Op::Ins(s, t) => format!("ins {} {}", s, tv(t)), Op::Rem(s, t) => format!("rem {} {}", s, tv(t)), Op::Clear(s) => format!("clear {}", s),
+        Op::Clone(s, d) => format!("clone {} {}", s, d), Op::Union(a, b, d) => format!("union {} {} {}", a, b, d), Op::Diff(a, b, d) => format!("diff {} {} {}", a, b, d),
+        Op::CIns(c, t) => format!("cins {} {}", c, tv(t)), Op::CClear(c) => format!("cclear {}", c),
+        Op::InsR(s, k, c) => format!("insr {} {} {}", s, k, c), Op::RemR(s, k, c) => format!("remr {} {} {}", s, k, c), Op::Mapped(s, m, d) => format!("mapped {} {} {}", s, m, d),
+    }
+}
+pub fn parse_op(s: &str) -> Op {
+    let t: Vec<&str> = s.split_whitespace().collect();
+    let n = |i: usize| -> usize { t[i].parse().unwrap() };
+    match t[0] {
+        "ins" => Op::Ins(n(1), pv(t[2])), "rem" => Op::Rem(n(1), pv(t[2])), "clear" => Op::Clear(n(1)), "clone" => Op::Clone(n(1), n(2)),
+        "union" => Op::Union(n(1), n(2), n(3)), "diff" => Op::Diff(n(1), n(2), n(3)), "cins" => Op::CIns(n(1), pv(t[2])), "cclear" => Op::CClear(n(1)),
+        "insr" => Op::InsR(n(1), n(2) as u32, n(3)), "remr" => Op::RemR(n(1), n(2) as u32, n(3)), "mapped" => Op::Mapped(n(1), n(2) as u32, n(3)),
+        x => panic!("bad op {}", x),
+    }
+}
+
+type Ref = BTreeSet<Vec<u32>>;
+pub struct Fam<T: PT> { t: Vec<T>, r: Vec<Ref>, c: Vec<T::Child>, cr: Vec<Ref> }
+
+/// the monotone column maps used by `mapped`: code bit i set => column i is mapped by x -> x + 10 for x in {0, 1} (2 is outside the domain)
+fn colmap() -> PrefixTree2 { let mut m = PrefixTree2::new(); m.insert([0, 10]); m.insert([1, 11]); m }
+fn mapval(x: u32) -> Option<u32> { if x <= 1 { Some(x + 10) } else { None } }
+
+fn check_tree<T: PT>(t: &T, r: &Ref, what: &str, vals: u32) -> Result<(), String> {
+    let it = t.iter_();
+    let want: Vec<Vec<u32>> = r.iter().cloned().collect();
+    if it != want { return Err(format!("iter({}): yields {:?} but the reference set is {:?} -- contents", what, it, want)); }
+    if t.is_empty_() != r.is_empty() { return Err(format!("is_empty({}): returns {} but the container holds {} tuples -- is_empty", what, t.is_empty_(), r.len())); }
+    for x in r.iter() { if !t.contains_(x) { return Err(format!("contains({}): {:?} not reported -- contains", what, x)); } }
+    if T::N >= 1 {
+        let rs = t.restrictions();
+        let keys: Vec<u32> = rs.iter().map(|p| p.0).collect();
+        let want_keys: Vec<u32> = r.iter().map(|x| x[0]).collect::<BTreeSet<u32>>().into_iter().collect();
+        if keys != want_keys { return Err(format!("iter_restrictions({}): keys {:?} but the first columns present are {:?} -- empty-subtree", what, keys, want_keys)); }
+        for k in 0..vals + 12 {
+            let want: Vec<Vec<u32>> = r.iter().filter(|x| x[0] == k).map(|x| x[1..].to_vec()).collect();
+            match t.get_(k) {
+                None => if !want.is_empty() { return Err(format!("get({}, {}): None but tuples with that prefix exist -- get", what, k)); },
+                Some(got) => { if want.is_empty() { return Err(format!("get({}, {}): Some(..) although no tuple has that prefix -- empty-subtree", what, k)); }
+                    if got != want { return Err(format!("get({}, {}): {:?} vs {:?} -- get", what, k, got, want)); } }
+            }
+        }
+    }
+    Ok(())
+}
+
+fn step<T: PT>(f: &mut Fam<T>, op: &Op, vals: u32) -> Result<(), String> {
+    match op {
+        Op::Ins(s, t) => { let a = f.t[*s].insert_(t); let b = f.r[*s].insert(t.clone()); if a != b { return Err(format!("insert: returned {} (reference {}) -- result", a, b)); } }
+        Op::Rem(s, t) => { let a = f.t[*s].remove_(t); let b = f.r[*s].remove(t); if a != b { return Err(format!("remove: returned {} (reference {}) -- result", a, b)); } }
+        Op::Clear(s) => { f.t[*s].clear_(); f.r[*s].clear(); }
+        Op::Clone(s, d) => { if s != d { let c = f.t[*s].clone(); f.t[*d] = c; let c = f.r[*s].clone(); f.r[*d] = c; } }
+        Op::Union(a, b, d) => { let u = f.t[*a].union_(&f.t[*b]); let w: Ref = f.r[*a].union(&f.r[*b]).cloned().collect(); f.t[*d] = u; f.r[*d] = w; }
+        Op::Diff(a, b, d) => { let u = f.t[*a].difference_(&f.t[*b]); let w: Ref = f.r[*a].difference(&f.r[*b]).cloned().collect(); f.t[*d] = u; f.r[*d] = w; }
+        Op::CIns(c, t) => { f.c[*c].insert_(t); f.cr[*c].insert(t.clone()); }
+        Op::CClear(c) => { f.c[*c].clear_(); f.cr[*c].clear(); }
+        Op::InsR(s, k, c) => { if T::N >= 1 { f.t[*s].ins_restr(*k, &f.c[*c]); for x in f.cr[*c].iter() { let mut v = vec![*k]; v.extend(x); f.r[*s].insert(v); } } }
+        Op::RemR(s, k, c) => { if T::N >= 1 { f.t[*s].rem_restr(*k, &f.c[*c]); for x in f.cr[*c].iter() { let mut v = vec![*k]; v.extend(x); f.r[*s].remove(&v); } } }
+        Op::Mapped(s, code, d) => {
+            let ms: Vec<Option<PrefixTree2>> = (0..T::N.max(1)).map(|i| if code >> i & 1 == 1 { Some(colmap()) } else { None }).collect();
+            let m = f.t[*s].mapped_(&ms);
+            let mut w = Ref::new();
+            'x: for x in f.r[*s].iter() { let mut y = vec![]; for (i, v) in x.iter().enumerate() { if code >> i & 1 == 1 { match mapval(*v) { Some(z) => y.push(z), None => continue 'x } } else { y.push(*v) } } w.insert(y); }
+            f.t[*d] = m; f.r[*d] = w;
+        }
+    }
+    for s in 0..f.t.len() { check_tree(&f.t[s], &f.r[s], &format!("slot {}", s), vals)?; }
+    for c in 0..f.c.len() { let it = f.c[c].iter_(); let want: Vec<Vec<u32>> = f.cr[c].iter().cloned().collect(); if it != want { return Err(format!("clone-independence: restriction operand {} changed: {:?} vs {:?} -- contents", c, it, want)); } }
+    Ok(())
+}
+
+fn run_seq<T: PT>(ops: &[Op], vals: u32) -> Result<(), (usize, String)> {
+    let mut f: Fam<T> = Fam { t: (0..3).map(|_| T::new_()).collect(), r: (0..3).map(|_| Ref::new()).collect(), c: (0..2).map(|_| <T::Child>::new_()).collect(), cr: (0..2).map(|_| Ref::new()).collect() };
+    for (i, op) in ops.iter().enumerate() {
+        match catch(|| step(&mut f, op, vals)) { Ok(Ok(())) => {}, Ok(Err(e)) => return Err((i, e)), Err(p) => return Err((i, format!("{}: panic: {} -- panic", fmt_op(op).split(' ').next().unwrap(), p))) }
+    }
+    Ok(())
+}
+
+fn run_arity(n: usize, ops: &[Op], vals: u32) -> Result<(), (usize, String)> {
+    match n { 0 => run_seq::<PrefixTree0>(ops, vals), 1 => run_seq::<PrefixTree1>(ops, vals), 2 => run_seq::<PrefixTree2>(ops, vals), 3 => run_seq::<PrefixTree3>(ops, vals),
+        4 => run_seq::<PrefixTree4>(ops, vals), 5 => run_seq::<PrefixTree5>(ops, vals), 6 => run_seq::<PrefixTree6>(ops, vals), 7 => run_seq::<PrefixTree7>(ops, vals),
+        8 => run_seq::<PrefixTree8>(ops, vals), 9 => run_seq::<PrefixTree9>(ops, vals), _ => panic!("arity") }
+}
+
+pub fn replay(seq: &str) -> Result<(), (usize, String)> {
+    let (n, rest) = seq.split_once(':').expect("pt replay: <arity>:<ops>");
+    let ops: Vec<Op> = rest.split(';').filter(|s| !s.trim().is_empty()).map(parse_op).collect();
+    run_arity(n.parse().unwrap(), &ops, 3)
+}
+
+fn tuples(n: usize, vals: u32, limit: usize) -> Vec<Vec<u32>> {
+    // all tuples over {0..vals} for small n; for larger n the varying columns are the first and the last two, the middle is constant 1
+    let free = n.min(3);
+    let mut out = vec![];
+    let total = (vals as usize).pow(free as u32);
+    for code in 0..total {
+        let mut c = code; let mut fr = vec![]; for _ in 0..free { fr.push((c % vals as usize) as u32); c /= vals as usize; }
+        let mut t = vec![1u32; n];
+        if n >= 1 { t[0] = fr[0]; } if n >= 2 { t[n - 1] = fr[1]; } if n >= 3 { t[n - 2] = fr[2]; }
+        out.push(t);
+        if out.len() >= limit { break; }
+    }
+    out
+}
+
+fn alphabet(n: usize, vals: u32) -> Vec<Op> {
+    let ts = tuples(n, vals, 9);
+    let cts = tuples(n.saturating_sub(1), vals, 4);
+    let mut a = vec![];
+    for t in ts.iter() { a.push(Op::Ins(0, t.clone())); a.push(Op::Rem(0, t.clone())); }
+    for t in ts.iter().take(3) { a.push(Op::Ins(1, t.clone())); }
+    a.push(Op::Clear(0)); a.push(Op::Clone(0, 1)); a.push(Op::Clone(1, 0)); a.push(Op::Union(0, 1, 2)); a.push(Op::Diff(0, 1, 2)); a.push(Op::Diff(0, 1, 0)); a.push(Op::Union(0, 1, 0));
+    if n >= 1 {
+        for t in cts.iter() { a.push(Op::CIns(0, t.clone())); }
+        a.push(Op::CClear(0));
+        for k in 0..vals.min(2) { a.push(Op::InsR(0, k, 0)); a.push(Op::RemR(0, k, 0)); }
+        a.push(Op::Mapped(0, 0, 2)); a.push(Op::Mapped(0, 1, 2)); a.push(Op::Mapped(0, 2, 0)); a.push(Op::Mapped(0, 3, 2));
+    } else { a.push(Op::Mapped(0, 0, 2)); }
+    a
+}
+
+pub fn sweep(thorough: bool, seed: u64) -> Report {
+    let mut rep = Report::new();
+    let mut bounds = vec![];
+    for n in 0..=9usize {
+        let vals = if n <= 2 { 3 } else { 2 };
+        let alpha = alphabet(n, vals);
+        let len = if thorough { if n <= 4 { 4 } else { 3 } } else { 3 };
+        bounds.push(format!("arity {}: all {}^{} sequences", n, alpha.len(), len));
+        let mut idx = vec![0usize; len];
+        'a: loop {
+            let ops: Vec<Op> = idx.iter().map(|&i| alpha[i].clone()).collect();
+            rep.evaluations += 1;
+            let muts = ops.iter().filter(|o| matches!(o, Op::Ins(..) | Op::InsR(..) | Op::Union(..) | Op::Mapped(..))).count();
+            if muts >= 2 { rep.nontrivial_count += 1; }
+            if let Err((i, e)) = run_arity(n, &ops, vals) { rep.fail(format!("pt:{}:{}", n, ops[..=i].iter().map(fmt_op).collect::<Vec<_>>().join(";")), i, e); }
+            if rep.samples.len() < 3 && rep.evaluations % 70_001 == 0 { rep.samples.push(format!("pt:{}:{}", n, ops.iter().map(fmt_op).collect::<Vec<_>>().join(";"))); }
+            let mut p = 0; loop { if p == len { break 'a; } idx[p] += 1; if idx[p] < alpha.len() { break; } idx[p] = 0; p += 1; }
+        }
+        // seeded random longer sequences
+        let mut rng = Rng::new(seed * 31 + n as u64 + 7);
+        let (count, l2) = if thorough { (3000, 40) } else { (300, 30) };
+        for _ in 0..count {
+            let ops: Vec<Op> = (0..l2).map(|_| alpha[rng.below(alpha.len() as u64) as usize].clone()).collect();
+            rep.evaluations += 1; rep.nontrivial_count += 1;
+            if let Err((i, e)) = run_arity(n, &ops, vals) { rep.fail(format!("pt:{}:{}", n, ops[..=i].iter().map(fmt_op).collect::<Vec<_>>().join(";")), i, e); }
+        }
+    }
+    rep.exhaustive = false;
+    rep.bound = format!("{}; plus seeded random sequences per arity (seed {}); values per column 3 (arity <= 2) or 2; arities >= 4 vary the first and the last two columns", bounds.join(", "), seed);
+    rep
+}
